@@ -711,10 +711,16 @@ def rule_scale_total(db, chk, cfg, rule="SCALE.total"):
             # loops over the input that append to the result count as the transform
             body = f.body
 
-            def loop_fills(lp):
-                t = canon(lp)
-                return (pname in canon(kids(lp)[0] if lp.get("kind") != "CXXForRangeStmt" else lp)[:400]) and any(
-                    y.get("kind") == "CXXMemberCallExpr" and db.callee(y)[0] in ("emplace_back", "push_back") for y in walk(lp))
+            def loop_fills(lp, pname=pname):
+                over_input = False
+                if lp.get("kind") == "CXXForRangeStmt":
+                    for y in walk(lp):
+                        if y.get("kind") == "VarDecl" and y.get("name", "").startswith("__range"):
+                            over_input = any(z.get("kind") == "DeclRefExpr" and z.get("referencedDecl", {}).get("name") == pname for z in walk(y))
+                else:
+                    hdr = [c for c in kids(lp)[:-1] if isinstance(c, dict)]
+                    over_input = any(z.get("kind") == "DeclRefExpr" and z.get("referencedDecl", {}).get("name") == pname for h in hdr for z in walk(h))
+                return over_input and any(y.get("kind") == "CXXMemberCallExpr" and db.callee(y)[0] in ("emplace_back", "push_back") for y in walk(lp))
             orig_stmt = cl.stmt
 
             def stmt2(node, st, orig=orig_stmt):
